@@ -12,6 +12,7 @@ import PysersicModel.Driver.Loss
 import PysersicModel.Driver.Render
 import PysersicModel.Driver.Prob
 import PysersicModel.Driver.MapDict
+import PysersicModel.Driver.MultiBand
 
 open Pysersic
 
@@ -47,6 +48,11 @@ def dispatch (line : String) : String :=
     | "baselp" => Driver.baseLpCmd args
     | "mapkeys" => Driver.mapKeysCmd args
     | "regroup" => Driver.regroupCmd args
+    | "mbsites" => Driver.mbSitesCmd args
+    | "polylink" => Driver.polyLinkCmd args
+    | "mbrange" => Driver.mbRangeCmd args
+    | "relabel" => Driver.relabelCmd args
+    | "dot" => Driver.dotCmd args
     | _ => "bad-op " ++ cmd
 
 partial def loop (h : IO.FS.Stream) (out : IO.FS.Stream) : IO Unit := do
